@@ -51,6 +51,9 @@ def child_env(registry: bool = True, extra: dict = None) -> dict:
     e["VERIF_REPO"] = REPO
     e[GUARD] = "1"
     e.pop("COVERAGE_PROCESS_START", None)
+    # run the tool with the interpreter's default stdout buffering, as a user does (the sandbox exports
+    # PYTHONUNBUFFERED=1, which would hide every "deleted before the buffered output was flushed" defect)
+    e.pop("PYTHONUNBUFFERED", None)
     if extra:
         e.update(extra)
     return e
